@@ -711,7 +711,7 @@ def _char_collection(ctx, scope, e: ast.AST, depth: int = 0):
     if isinstance(e, ast.Name):
         if isinstance(scope, FunctionInfo) and ctx.rd(scope).is_local(e.id):
             if e.id in scope.params:
-                return None
+                return _optional_param_vocabulary(ctx, scope, e.id, depth)
             defs = [st for st in ctx.cfg(scope).stmts() if e.id in stmt_defs(st)]
             if len(defs) != 1:
                 return None
@@ -723,6 +723,65 @@ def _char_collection(ctx, scope, e: ast.AST, depth: int = 0):
         if base is not None and hasattr(base, "assigns"):
             return _module_constant(ctx, base, e.attr, depth)
     return None
+
+
+def _optional_param_vocabulary(ctx, f, pname: str, depth: int):
+    """The character collection an optional parameter stands for when the caller passes nothing: its default value, or — for a
+    default of None — the collection it is bound to on the `is None` branch (`if p is None: p = '…'`, `p = '…' if p is None else p`,
+    `p = p or '…'`).  No caller inside the package may pass the parameter (then the decision would be per call site)."""
+    a = f.node.args
+    pos = a.posonlyargs + a.args
+    dflt = None
+    if pname in [x.arg for x in pos]:
+        i = [x.arg for x in pos].index(pname) - (len(pos) - len(a.defaults))
+        dflt = a.defaults[i] if i >= 0 else None
+    elif pname in [x.arg for x in a.kwonlyargs]:
+        dflt = a.kw_defaults[[x.arg for x in a.kwonlyargs].index(pname)]
+    if dflt is None:
+        return None                             # a required parameter: the vocabulary is the caller's
+    for caller, call in ctx.cg.call_sites_of(f):
+        bound_pos = [x.arg for x in pos][:len(call.args)]
+        if pname in bound_pos or any(k.arg == pname or k.arg is None for k in call.keywords):
+            raise AnalysisError(f"C05-R4: {caller.qual}: passes its own `{pname}` to {f.qualname} (the boundary set of this call is not the default one)")
+    is_none = isinstance(dflt, ast.Constant) and dflt.value is None
+    if not is_none:
+        r = _char_collection(ctx, f.module, dflt, depth + 1)
+        stores = [n for n in walk_shallow(f.node) if isinstance(n, ast.Name) and n.id == pname and isinstance(n.ctx, ast.Store)]
+        return (r[0], r[1] or f.node) if r is not None and not stores else None
+
+    def none_test(t):
+        """True: `p is None` / `not p`; False: `p is not None` / `p`; None: something else."""
+        pol = True
+        while isinstance(t, ast.UnaryOp) and isinstance(t.op, ast.Not):
+            t, pol = t.operand, not pol
+        if isinstance(t, ast.Name) and t.id == pname:
+            return not pol
+        if isinstance(t, ast.Compare) and len(t.ops) == 1 and isinstance(t.left, ast.Name) and t.left.id == pname \
+                and isinstance(t.comparators[0], ast.Constant) and t.comparators[0].value is None:
+            if isinstance(t.ops[0], (ast.Is, ast.Eq)):
+                return pol
+            if isinstance(t.ops[0], (ast.IsNot, ast.NotEq)):
+                return not pol
+        return None
+    found = []
+    for st in walk_shallow(f.node):
+        if isinstance(st, ast.If) and none_test(st.test) is not None:
+            branch = st.body if none_test(st.test) else st.orelse
+            for b in branch:
+                if isinstance(b, ast.Assign) and pname in target_names(b.targets[0]) and len(b.targets) == 1:
+                    found.append((assigned_value(b, pname), b))
+        elif isinstance(st, ast.Assign) and len(st.targets) == 1 and isinstance(st.targets[0], ast.Name) and st.targets[0].id == pname:
+            v = st.value
+            if isinstance(v, ast.IfExp) and none_test(v.test) is not None:
+                found.append((v.body if none_test(v.test) else v.orelse, st))
+            elif isinstance(v, ast.BoolOp) and isinstance(v.op, ast.Or) and len(v.values) == 2 and isinstance(v.values[0], ast.Name) \
+                    and v.values[0].id == pname:
+                found.append((v.values[1], st))
+    stores = [n for n in walk_shallow(f.node) if isinstance(n, ast.Name) and n.id == pname and isinstance(n.ctx, ast.Store)]
+    if len(found) != 1 or len(stores) != 1:
+        return None
+    r = _char_collection(ctx, f, found[0][0], depth + 1)
+    return (r[0], r[1] or found[0][1]) if r is not None else None
 
 
 def _module_constant(ctx, m, name: str, depth: int):
